@@ -203,6 +203,18 @@ theorem conflict_is_a_create_attempt_only (c : Cfg) :
   simp only [decide_ignores ro ow ns ce de pol pp co pg]
   cases ro <;> cases ow <;> cases ns <;> cases ce <;> cases de <;> cases pol <;> cases pp <;> decide
 
+/-- The server rejects the mutating call (422 / 409 / 500 …): what is attempted is exactly what
+    would have been attempted anyway — the one PATCH under policy `patch`, the one DELETE under
+    `recreate` / delete-if-exists, nothing under `never` / readonly — never a fallback to another
+    kind of mutation; the error propagates instead of a Retry. -/
+theorem rejected_mutation_is_the_only_attempt (c : Cfg) :
+    (ResourceFn.decide c .presentDriftedRejected).1 = (ResourceFn.decide c .presentDrifted).1 ∧
+    ((ResourceFn.decide c .presentDriftedRejected).2 = .raised ↔
+      (ResourceFn.decide c .presentDrifted).1.isMutation = true) := by
+  obtain ⟨ro, ow, ns, ce, de, pol, pp, co, pg⟩ := c
+  simp only [decide_ignores ro ow ns ce de pol pp co pg]
+  cases ro <;> cases ow <;> cases ns <;> cases ce <;> cases de <;> cases pol <;> cases pp <;> decide
+
 /-- preconditions do not pass: no API call at all (not even the load), whatever the mode and
     whatever is in the cluster; the outcome is the precondition's own -/
 theorem precond_fail_no_api (c : Cfg) (s : Situation) (h : c.precondPass = false) :
@@ -210,7 +222,7 @@ theorem precond_fail_no_api (c : Cfg) (s : Situation) (h : c.precondPass = false
   obtain ⟨ro, ow, ns, ce, de, pol, pp, co, pg⟩ := c
   try dsimp only at *
   subst h
-  exact ⟨rfl, rfl⟩
+  exact ⟨by cases s <;> rfl, rfl⟩
 
 /-- the kind-to-plural discovery call is made exactly when the plural is not given and the
     preconditions passed (cold cache) — in every mode, in front of the load -/
@@ -229,12 +241,13 @@ theorem no_api_iff_precond_fail (c : Cfg) (s : Situation) :
 
 /-- every mutation is reported as Retry (the caller comes back to look at the result); a run
     that reports Ok has only read -/
-theorem mutation_reports_retry (c : Cfg) (s : Situation) :
+theorem mutation_reports_retry (c : Cfg) (s : Situation) (hs : s.mutationRejected = false) :
     ((ResourceFn.decide c s).1 = .create ∨ (ResourceFn.decide c s).1 = .patch ∨ (ResourceFn.decide c s).1 = .delete) →
     (ResourceFn.decide c s).2 = .retry := by
   obtain ⟨ro, ow, ns, ce, de, pol, pp, co, pg⟩ := c
   try dsimp only at *
   simp only [decide_ignores ro ow ns ce de pol pp co pg]
+  revert hs
   cases ro <;> cases ow <;> cases ns <;> cases ce <;> cases de <;> cases pol <;> cases pp <;> cases s <;> decide
 
 /-- a create happens exactly in the one cell family that allows it -/
@@ -251,7 +264,7 @@ theorem create_iff (c : Cfg) (s : Situation) :
 theorem patch_iff (c : Cfg) (s : Situation) :
     (ResourceFn.decide c s).1 = .patch ↔
       (c.precondPass = true ∧ c.deleteIfExists = false ∧ c.readonly = false ∧ c.policy = .patch ∧
-        (s = .presentDrifted ∨ (s = .presentNoOwnerRef ∧ c.owned = true ∧ c.namespaced = true))) := by
+        (s.isDrifted = true ∨ (s = .presentNoOwnerRef ∧ c.owned = true ∧ c.namespaced = true))) := by
   obtain ⟨ro, ow, ns, ce, de, pol, pp, co, pg⟩ := c
   try dsimp only at *
   simp only [decide_ignores ro ow ns ce de pol pp co pg]
@@ -264,12 +277,12 @@ theorem patch_iff (c : Cfg) (s : Situation) :
     situation — or, when materialising the target fails, stops after the load with no mutation. -/
 theorem reconcile_follows_table (enc : JVal → String) (defNs : String) (cmp : JVal → JVal → Bool)
     (pp : Bool) (rf : Rf) (owner : Owner) (stored : Option JVal)
-    (hns : (owner.ns == rf.ns) = rf.api.namespaced) :
+    (hns : (owner.ns == rf.ns) = rf.api.namespaced) (hw : (rf.api.namespaced && rf.ns.isNone) = false) :
     let run := reconcile enc defNs cmp pp rf owner stored
     (run.action = .none ∧ run.outcome = none ∧ run.request.isNone) ∨
     ∃ s, (run.action, run.outcome) = ((ResourceFn.decide (rf.cfg pp) s).1, some (ResourceFn.decide (rf.cfg pp) s).2) ∧
       (s = .absent ↔ (stored.bind fun o => Identity.krLoaded rf.api o rf.ns) = none) :=
-  Koreo.Rf.reconcile_follows_table enc defNs cmp pp rf owner stored hns
+  Koreo.Rf.reconcile_follows_table enc defNs cmp pp rf owner stored hns hw
 
 /-! ## non-vacuity -/
 
